@@ -1,2 +1,141 @@
-/-! Line-protocol driver of the Alloc model (stub). -/
-def main : IO Unit := pure ()
+import SoxrModel.Alloc.Model
+
+/-!
+Line-protocol driver of the Alloc model (`soxr_alloc`).  One job at a time:
+
+```
+eng <site> <site> …        engine site list of one channel (one line per channel); site = name|kind|life
+                           kind: c(hecked) u(nchecked)   life: t(emp) o(wn) s(hared) g(lobal static) r(ealloc of an existing block)
+create <0|1>               soxr_create with the pending `eng` lines; 1 = a ratio is given (resamplers are built)
+op process <site> …        soxr_process making these allocation calls
+op clear <0|1>             soxr_clear (1 = RESET_ON_CLEAR) rebuilding with the pending `eng` lines
+op ratio                   soxr_set_io_ratio, building with the pending `eng` lines if nothing is built yet
+op channels                soxr_set_num_channels to the number of pending `eng` lines
+run                        prints  `n <calls>`, `seq <site names in call order>`, then for every k < n  `k <k> <outcome> | <flat>`
+                           (only call k fails) and `p <k> <outcome> | <flat>` (every call from k on fails)
+```
+
+`<outcome>` is what the executable model (`runJob (failAt k)`) does; `<flat>` is what `classify` says about the flat
+site sequence (the theorems of `Properties/C20.lean` say the two agree; printing both lets the check see it too):
+
+```
+ok final=<m>                               nothing reported, m blocks live after soxr_delete
+error-returned op=<i> live=<n> final=<m>   call i of the script (-1 = soxr_create) returned an error, n blocks live then
+crash-at-site <name>                       the NULL of the failed call is dereferenced
+model-fault <text>                         double free / use after free in the model (never, by `job_no_leak_no_double_free`)
+```
+-/
+
+open Soxr.Alloc
+
+def parseSite (t : String) : Option Site :=
+  match t.splitOn "|" with
+  | [n, k, l] =>
+    let kind := if k == "c" then some Kind.checked else if k == "u" then some Kind.unchecked else none
+    let life := match l with
+      | "t" => some Life.temp | "o" => some Life.own | "s" => some Life.shared
+      | "g" => some Life.static | "r" => some Life.grow | _ => none
+    match kind, life with
+    | some k, some l => some ⟨n, k, l⟩
+    | _, _ => none
+  | _ => none
+
+def parseSites (ts : List String) : Option (List Site) :=
+  ts.foldr (fun t acc => match parseSite t, acc with
+    | some s, some l => some (s :: l)
+    | _, _ => none) (some [])
+
+/-- the flat site sequence of a job when nothing fails (process sites count as unchecked) -/
+def jobSeq (j : Job) : List Site :=
+  let init := j.engs.length ≠ 0 ∧ j.init = true
+  let rec go (ini : Bool) (n : Nat) : List Op → List Site
+    | [] => []
+    | .process ss :: ops => ss.map uncheck ++ go ini n ops
+    | .clear reset engs :: ops =>
+      if reset = true ∧ n ≠ 0 then initSeq engs ++ go true n ops else go false n ops
+    | .setRatio engs :: ops =>
+      if ini = true ∨ n = 0 then go ini n ops else initSeq engs ++ go true n ops
+    | .setChannels engs :: ops =>
+      if engs.length = n ∨ engs.length = 0 ∨ ini = true then go ini n ops
+      else initSeq engs ++ go true engs.length ops
+  createSeq j.engs j.init ++ go (decide init) j.engs.length j.ops
+
+def showRes : Res Verdict → String
+  | .ok (.completed m) _ => s!"ok final={m}"
+  | .ok (.createFailed n) _ => s!"error-returned op=-1 live={n} final={n}"
+  | .ok (.opFailed i n m) _ => s!"error-returned op={i} live={n} final={m}"
+  | .fault (.derefNull s) => s!"crash-at-site {s}"
+  | .fault (.derefDead b) => s!"model-fault use-after-free block {b}"
+  | .fault (.badFree b) => s!"model-fault bad-free block {b}"
+
+def showFlat : Outcome → String
+  | .allOk => "flat-ok"
+  | .errAt _ s => s!"flat-error {s.name}"
+  | .crashAt _ s => s!"flat-crash {s.name}"
+
+structure St where
+  pending : List (List Site) := []
+  job : Option Job := none
+
+def takePending (st : St) : List (List Site) × St := (st.pending.reverse, { st with pending := [] })
+
+def step (st : St) (line : String) : IO St := do
+  let toks := (line.trimAscii.toString.splitOn " ").filter (· ≠ "")
+  match toks with
+  | [] => pure st
+  | "eng" :: ts =>
+    match parseSites ts with
+    | some ss => pure { st with pending := ss :: st.pending }
+    | none => do IO.println "error bad-site"; pure st
+  | ["create", i] =>
+    let (engs, st) := takePending st
+    pure { st with job := some ⟨engs, i == "1", []⟩ }
+  | "op" :: "process" :: ts =>
+    match parseSites ts, st.job with
+    | some ss, some j => pure { st with job := some { j with ops := j.ops ++ [.process ss] } }
+    | _, _ => do IO.println "error bad-op"; pure st
+  | ["op", "clear", r] =>
+    let (engs, st) := takePending st
+    match st.job with
+    | some j => pure { st with job := some { j with ops := j.ops ++ [.clear (r == "1") engs] } }
+    | none => do IO.println "error no-job"; pure st
+  | ["op", "ratio"] =>
+    let (engs, st) := takePending st
+    match st.job with
+    | some j => pure { st with job := some { j with ops := j.ops ++ [.setRatio engs] } }
+    | none => do IO.println "error no-job"; pure st
+  | ["op", "channels"] =>
+    let (engs, st) := takePending st
+    match st.job with
+    | some j => pure { st with job := some { j with ops := j.ops ++ [.setChannels engs] } }
+    | none => do IO.println "error no-job"; pure st
+  | ["run"] =>
+    match st.job with
+    | none => do IO.println "error no-job"; pure st
+    | some j => do
+      let seq := jobSeq j
+      let n := match runJob (fun _ => false) j {} with
+        | .ok _ h => h.count
+        | .fault _ => 0
+      IO.println s!"n {n}"
+      IO.println s!"seq {" ".intercalate (seq.map (·.name))}"
+      IO.println s!"nofail {showRes (runJob (fun _ => false) j {})}"
+      for k in [0:n] do
+        IO.println s!"k {k} {showRes (runJob (failAt k) j {})} | {showFlat (classify (failAt k) 0 seq)}"
+      -- memory stays exhausted: every call from k on fails
+      for k in [0:n] do
+        IO.println s!"p {k} {showRes (runJob (fun i => decide (k ≤ i)) j {})} | {showFlat (classify (fun i => decide (k ≤ i)) 0 seq)}"
+      IO.println "done"
+      pure { pending := [], job := none }
+  | _ => do IO.println s!"error unknown-line {line}"; pure st
+
+partial def loop (st : St) : IO Unit := do
+  let stdin ← IO.getStdin
+  let line ← stdin.getLine
+  if line.isEmpty then pure ()
+  else do
+    let st ← step st line
+    (← IO.getStdout).flush
+    loop st
+
+def main : IO Unit := loop {}
